@@ -92,7 +92,8 @@ def plain_runs(p, order, g):
 def keyed_grouped(p, items):
     head, tail = [], []
     env = A.Env()
-    ops = [rs.ops.group_by(lambda i: i[0], [
+    # the group key VALUES are tuples / floats / ints with equal hashes (-1/-2, 0/2**61-1): groups are told apart by ==
+    ops = [rs.ops.group_by(lambda i: A.GKEYS[i[0] % len(A.GKEYS)], [
         drive.tap(head), rs.ops.map(lambda i: i[1]), *A.build_pipeline(p, env), drive.tap(tail)])]
     r = drive.store([tuple(i) for i in items], ops)
     keymap = {}
